@@ -390,8 +390,11 @@ def classify(tool, args, res, fmt='auto', outfile=None, repo=None, group=''):
     # error exit
     if text.strip():
         looks = any(re.match(r'(p cnf|\* #variable|\\documentclass|-?\d+( -?\d+)* 0$)', l) for l in text.split('\n'))
-        return ('{}:{}'.format('partial-formula' if looks else 'stdout-on-error', tool),
-                'exit {} with {} bytes of unshielded text on stdout: {!r}'.format(rc, len(text), text[:80]))
+        if looks:
+            return ('partial-formula:{}'.format(tool),
+                    'exit {} with {} bytes of unshielded text on stdout: {!r}'.format(rc, len(text), text[:80]))
+        # text on stdout that is no part of a formula (e.g. a message printed by pydot) is not what the property
+        # forbids ("without writing a partial formula"); it is not reported
     if not err.strip():
         return ('silent-error:' + tool, 'exit {} without any message'.format(rc))
     marks = [MARK[fmt]] if fmt else list(MARK.values())
